@@ -947,10 +947,26 @@ theorem declaredNode_fresh (d : DefaultsCfg) (n : NodeCfg) : ∀ c ∈ (declared
     · unfold declaredWap; split <;> exact ⟨rfl, Or.inl rfl⟩
     · unfold declaredRouterIf; split <;> exact ⟨rfl, Or.inr rfl⟩
 
+/-- **precedence between two sources of one option**: for every pair of the regenerated table `outerSources` (dns-client
+`dns_server` vs the node's `dns_server`) the install hook leaves what the documentation says: the entry's own value if it gives
+one, else the outer source's, else none — for EVERY node entry and EVERY software inventory line. -/
+theorem C20_option_precedence (n : NodeCfg) (sw : SoftInv) : applyOuter n sw = declaredOuter n sw := by
+  unfold applyOuter declaredOuter hookOuter
+  split
+  · cases (alookup "dns_server" sw.opts).join <;> rfl
+  · rfl
+
+/-- the four combinations, spelled out: neither source, only the node's, only the entry's, both (the entry's wins) -/
+theorem C20_option_precedence_cases (inner outer : String) :
+    hookOuter none none = none ∧ hookOuter none (some outer) = some outer ∧
+    hookOuter (some inner) none = some inner ∧ hookOuter (some inner) (some outer) = some inner := ⟨rfl, rfl, rfl, rfl⟩
+
 /-- One node entry: the loader builds exactly what the entry declares (before any link is made). -/
 theorem buildNode_eq_declared (d : DefaultsCfg) (n : NodeCfg) (wf : NodeWF n) : buildNode d n = .ok (declaredNode d n) := by
-  have hsoft : softInventory (powerOnSoftware (n.power.getD .on) (installedAfter (installAll d (n.power.getD .on) n.kind n)))
-      = declaredSoftware d (n.power.getD .on) n.kind n := softInventory_loaded _ _ _ _ wf.opts
+  have hsoft : (softInventory (powerOnSoftware (n.power.getD .on) (installedAfter (installAll d (n.power.getD .on) n.kind n)))).map (applyOuter n)
+      = (declaredSoftware d (n.power.getD .on) n.kind n).map (declaredOuter n) := by
+    rw [softInventory_loaded _ _ _ _ wf.opts]
+    exact List.map_congr_left (fun sw _ => C20_option_precedence n sw)
   have husers : buildUsers n = declaredUsers n := buildUsers_eq_declared n wf.users
   have hfold : buildFolders n = n.folders := buildFolders_eq_declared n wf.folders
   have hfresh := declaredNode_fresh d n
@@ -1594,8 +1610,9 @@ theorem C20_node_key_order_irrelevant (d : DefaultsCfg) (n n' : NodeCfg) (hp : N
   have h11 : n'.numPorts = n.numPorts := by rw [hrest]
   have h12 : n'.routerIf = n.routerIf := by rw [hrest]
   have h13 : n'.wap = n.wap := by rw [hrest]
+  have houter : applyOuter n' = applyOuter n := by funext sw; simp only [applyOuter, h5]
   unfold buildNode
-  simp only [hk, h1, h2, h3, h4, h5, h6, h7, h8, h9, h10, h11, h12, h13, hnics, hports, hacl, hfw, hfwa, hinst, husers, hfold]
+  simp only [hk, h1, h2, h3, h4, h5, h6, h7, h8, h9, h10, h11, h12, h13, hnics, hports, hacl, hfw, hfwa, hinst, husers, hfold, houter]
 
 /-- `a'` is `a` with the entries of its action map in another order. -/
 structure AgentPerm (a a' : AgentCfg) : Prop where
@@ -2054,6 +2071,12 @@ reading. -/
 theorem C20_gen_software_options_applied : Gen.Config.softwareInitOtherConfigUses = [] ∧
     Gen.Config.softwareInitApplies = initApplies ∧ Gen.Config.softwareChains = classChains ∧
     Gen.Config.softwareInitGuardedApplies = [("Software", "_fixing_countdown", "fixing_duration")] := by decide
+
+/-- the options that have a second source are exactly the ones the model knows, each filled inner-first by its `install()` hook
+(`if self.parent and not self.<opt>: self.config.<opt> = <outer>`; the extractor refuses any other write of `self.config` in an
+`install()` hook), and no constructor writes `self.config` (`C20_gen_software_options_applied`: such a statement is an "other
+use") — so the node-level key can never override the entry's own value. -/
+theorem C20_gen_option_outer_sources : Gen.Config.optionOuterSources = outerSources := by decide
 
 /-- the constants and shapes behind the sections modelled in round 4: the registered airspace frequencies with their capacities
 and the access point's default one, capacities given in Mbps × 1024², a wireless router's port 1 = access point / port 2 =
